@@ -317,3 +317,14 @@ package keeper
 //@   trusted shifts the list by one with the builtin copy and puts y first; touches no state
 //@   pure
 //@   ensures len(r) == len(x) + 1 && r[0] == y
+
+// ================================================================ point queries (C07, C20): the stored value of exactly that key
+//@ func Keeper.Beacon(c, req) (resp, err)
+//@   props C07 C20
+//@   pure
+//@   ensures @stored_registration err == nil ==> bcHas(bea_store, req.BeaconId) && bcGet(bea_store, req.BeaconId) == deref(resp.Beacon)
+//@ func Keeper.BeaconTimestamp(c, req) (resp, err)
+//@   props C07 C20
+//@   pure
+//@   ensures @stored_record err == nil ==> tsHas(bea_store, req.BeaconId, req.TimestampId) && tsGet(bea_store, req.BeaconId, req.TimestampId) == deref(resp.Timestamp)
+//@   ensures @of_that_beacon err == nil ==> bcHas(bea_store, req.BeaconId) && resp.Owner == bcGet(bea_store, req.BeaconId).Owner && resp.BeaconId == bcGet(bea_store, req.BeaconId).BeaconId
